@@ -88,6 +88,20 @@ impl AsyncHandle {
     }
 }
 
+// Writes to the buffered stream, locks it per write call only
+struct LockedWrite<'a>(&'a Mutex<BufWriter<StdStream>>);
+impl Write for LockedWrite<'_> {
+    fn write(&mut self, buf: &[u8]) -> std::io::Result<usize> {
+        self.write_all(buf).map(|()| buf.len())
+    }
+    fn write_all(&mut self, buf: &[u8]) -> std::io::Result<()> {
+        self.0.lock().map_err(|_e| io_err("Poison"))?.write_all(buf)
+    }
+    fn flush(&mut self) -> std::io::Result<()> {
+        self.0.lock().map_err(|_e| io_err("Poison"))?.flush()
+    }
+}
+
 impl StdWriter {
     pub(crate) fn new(
         stdstream: StdStream,
@@ -148,12 +162,14 @@ impl LogWriter for StdWriter {
                 )
             }
             InnerStdWriter::Buffered(m_w) => {
-                let mut w = m_w.lock().map_err(|_e| io_err("Poison"))?;
+                // take the lock only for the output of the formatted line: formatting can log
+                // itself (recursive logging from Display implementations), which would
+                // otherwise deadlock
                 write_buffered(
                     self.format,
                     now,
                     record,
-                    &mut *w,
+                    &mut LockedWrite(m_w),
                     #[cfg(test)]
                     Some(&self.validation_buffer),
                 )
